@@ -744,7 +744,37 @@ func (c *Ctx) FToInt(a *Term, signed bool, w int) *Term {
 	if signed {
 		op = OpFToSInt
 	}
-	return c.mk(op, BV(w), 0, "", []*Term{a})
+	raw := c.mk(op, BV(w), 0, "", []*Term{a})
+	// int -> float64 -> int of an integer below 2^53 in magnitude is the identity
+	// (exactly representable); the solver is only asked about the rest
+	if (a.Op == OpFFromSInt || a.Op == OpFFromUInt) && a.Sort.W == 64 && signed == (a.Op == OpFFromSInt) {
+		x := a.Args[0]
+		if x.Sort.W <= w {
+			var small, xw *Term
+			if signed {
+				xw = x
+				if x.Sort.W < w {
+					xw = c.SExt(x, w)
+				}
+				if x.Sort.W <= 53 {
+					return xw
+				}
+				lim := c.Const(x.Sort, uint64(1)<<53)
+				small = c.And(c.SLE(c.Neg(lim), x), c.SLE(x, lim))
+			} else {
+				xw = x
+				if x.Sort.W < w {
+					xw = c.ZExt(x, w)
+				}
+				if x.Sort.W <= 53 {
+					return xw
+				}
+				small = c.ULE(x, c.Const(x.Sort, uint64(1)<<53))
+			}
+			return c.Ite(small, xw, raw)
+		}
+	}
+	return raw
 }
 
 func (c *Ctx) FToF(a *Term, to Sort) *Term {
@@ -1032,3 +1062,9 @@ func (t *Term) str(d int) string {
 }
 
 var _ = bits.Len
+
+// SignExtend interprets the low w bits of v as a signed integer.
+func SignExtend(v uint64, w int) int64 { return sext(v, w) }
+
+// BitsToFloat gives the float a constant of sort s denotes.
+func BitsToFloat(s Sort, b uint64) float64 { return b2f(s, b) }
